@@ -20,6 +20,7 @@ import (
 	"go/parser"
 	"go/token"
 	"go/types"
+	"golang.org/x/tools/go/ast/astutil"
 	"reflect"
 	"sort"
 	"strings"
@@ -181,8 +182,8 @@ func recvChanged(known map[string]bool, rel string, fd *ast.FuncDecl) bool {
 // notInlinable screens out callees whose body cannot be moved into a caller.
 func (pl *planner) notInlinable(fd *ast.FuncDecl, obj *types.Func) string {
 	sig := obj.Type().(*types.Signature)
-	if sig.TypeParams() != nil || sig.RecvTypeParams() != nil {
-		return "generic"
+	if sig.RecvTypeParams() != nil {
+		return "method of a generic type"
 	}
 	if fd.Name.Name == "init" || fd.Name.Name == "main" {
 		return "init/main"
@@ -549,6 +550,27 @@ func (pl *planner) target(c *ast.CallExpr) *helper {
 // inlined (it would otherwise keep the variables it captures on the heap).
 func (pl *planner) dropDeadClosures(body *ast.BlockStmt) {
 	dead := func(s ast.Stmt) bool {
+		if ds, isDecl := s.(*ast.DeclStmt); isDecl {
+			// var f T = func…
+			gd, _ := ds.Decl.(*ast.GenDecl)
+			if gd == nil || gd.Tok != token.VAR || len(gd.Specs) != 1 {
+				return false
+			}
+			vs := gd.Specs[0].(*ast.ValueSpec)
+			if len(vs.Names) != 1 || len(vs.Values) != 1 {
+				return false
+			}
+			if _, isLit := vs.Values[0].(*ast.FuncLit); !isLit {
+				return false
+			}
+			oid, _ := pl.root(vs.Names[0]).(*ast.Ident)
+			if oid == nil {
+				return false
+			}
+			v, _ := pl.pkg.TypesInfo.Defs[oid].(*types.Var)
+			h := pl.closures[v]
+			return v != nil && h != nil && h.inl == h.uses && h.inl > 0
+		}
 		as, ok := s.(*ast.AssignStmt)
 		if !ok || len(as.Lhs) != 1 || len(as.Rhs) != 1 {
 			return false
@@ -648,6 +670,16 @@ func (pl *planner) findClosures() {
 			case *ast.CallExpr:
 				if id, ok := x.Fun.(*ast.Ident); ok {
 					called[id] = true
+				}
+			case *ast.ValueSpec:
+				if len(x.Names) == len(x.Values) {
+					for i := range x.Names {
+						if lit, ok := x.Values[i].(*ast.FuncLit); ok {
+							if v, ok := info.Defs[x.Names[i]].(*types.Var); ok && v.Parent() != pl.pkg.Types.Scope() {
+								cand[v] = lit
+							}
+						}
+					}
 				}
 			case *ast.AssignStmt:
 				if x.Tok == token.ASSIGN && len(x.Lhs) == len(x.Rhs) {
@@ -1218,6 +1250,67 @@ func (pl *planner) expandMulti(c *ast.CallExpr) (pre []ast.Stmt, rs []ast.Expr, 
 		pl.res.Skipped = append(pl.res.Skipped, fmt.Sprintf("%s: call in %s not inlined: %s", h.key, pl.curFunc, why))
 		return nil, nil, false
 	}
+	// a generic helper: the signature and the type arguments of this call
+	var tparams *types.TypeParamList
+	var targs *types.TypeList
+	if sig.TypeParams() != nil {
+		var fid *ast.Ident
+		switch f := c.Fun.(type) {
+		case *ast.Ident:
+			fid = f
+		case *ast.SelectorExpr:
+			fid = f.Sel
+		}
+		oid, _ := pl.root(fid).(*ast.Ident)
+		if fid == nil || oid == nil {
+			return skip("generic call that is not a plain call")
+		}
+		inst, ok := pl.pkg.TypesInfo.Instances[oid]
+		isig, _ := inst.Type.(*types.Signature)
+		if !ok || isig == nil || inst.TypeArgs.Len() != sig.TypeParams().Len() {
+			return skip("generic call without a recorded instance")
+		}
+		for i := 0; i < inst.TypeArgs.Len(); i++ {
+			hasParam := false
+			var walk func(t types.Type, depth int)
+			walk = func(t types.Type, depth int) {
+				if depth > 6 || t == nil {
+					return
+				}
+				switch x := t.(type) {
+				case *types.TypeParam:
+					hasParam = true
+				case *types.Pointer:
+					walk(x.Elem(), depth+1)
+				case *types.Slice:
+					walk(x.Elem(), depth+1)
+				case *types.Array:
+					walk(x.Elem(), depth+1)
+				case *types.Map:
+					walk(x.Key(), depth+1)
+					walk(x.Elem(), depth+1)
+				case *types.Chan:
+					walk(x.Elem(), depth+1)
+				case *types.Named:
+					for k := 0; k < x.TypeArgs().Len(); k++ {
+						walk(x.TypeArgs().At(k), depth+1)
+					}
+				case *types.Signature:
+					for k := 0; k < x.Params().Len(); k++ {
+						walk(x.Params().At(k).Type(), depth+1)
+					}
+					for k := 0; k < x.Results().Len(); k++ {
+						walk(x.Results().At(k).Type(), depth+1)
+					}
+				}
+			}
+			walk(inst.TypeArgs.At(i), 0)
+			if hasParam {
+				return skip("generic call instantiated with the caller's own type parameters")
+			}
+		}
+		tparams, targs, sig = sig.TypeParams(), inst.TypeArgs, isig
+	}
 	callPos := pl.root(c).Pos()
 	scope := pl.pkg.Types.Scope().Innermost(callPos)
 	if scope == nil {
@@ -1363,6 +1456,39 @@ func (pl *planner) expandMulti(c *ast.CallExpr) (pre []ast.Stmt, rs []ast.Expr, 
 	}
 	label := pl.fresh("L")
 	body := pl.clone(h.body).(*ast.BlockStmt)
+	if tparams != nil {
+		bad := ""
+		astutil.Apply(body, func(cur *astutil.Cursor) bool {
+			id, ok := cur.Node().(*ast.Ident)
+			if !ok {
+				return true
+			}
+			tn, _ := pl.useOf(id).(*types.TypeName)
+			if tn == nil {
+				return true
+			}
+			tp, _ := tn.Type().(*types.TypeParam)
+			if tp == nil {
+				return true
+			}
+			for i := 0; i < tparams.Len(); i++ {
+				if tparams.At(i) == tp {
+					te, okT := typeExpr(targs.At(i))
+					if !okT {
+						bad = "unprintable type argument"
+						return false
+					}
+					cur.Replace(te)
+					return false
+				}
+			}
+			bad = "type parameter of another function in the body"
+			return false
+		}, nil)
+		if bad != "" || qerr() != "" {
+			return skip("generic body: " + bad + qerr())
+		}
+	}
 	// labels are function-wide: every copy of the body gets its own
 	{
 		ren := map[string]string{}
